@@ -1022,6 +1022,14 @@ def gen_dependent_sequence(r):
         elif user == "workflow-switch":
             cases = [{"case": "a", "kind": kind, "name": name, "default": r.random() < 0.5},
                      {"case": "b", "kind": "ValueFunction", "name": "vf_ok1"}]
+            if r.random() < 0.5:
+                # a list-map key is not unique for koreo's validator: a second entry with the same `case` shadows the
+                # first one in `logic_map`; the two entries' functions are in different states of health
+                twin = r.choice(["a", "b"])
+                other = r.choice([("ValueFunction", "vf_ok1"), ("ValueFunction", "vf_ok2"), ("ValueFunction", "vf_missing"),
+                                  ("ValueFunction", "vf_bad"), (kind, name)])
+                cases.append({"case": twin, "kind": other[0], "name": other[1],
+                              "default": (not any(c.get("default") for c in cases)) and r.random() < 0.6})
             r.shuffle(cases)
             spec = {"steps": [{"label": "uses", "refSwitch": {"switchOn": "=parent.kind", "cases": cases}}]}
             steps.append({"resource": "Workflow", "spec": spec, "via_cache": via})
@@ -1124,6 +1132,120 @@ def run_sequences(ck: Check, drv: LeanDriver, n: int, r):
         mine = [res["r"] for res in results]
         if ans.get("results") != mine or ans.get("usable") is not True:
             ck.disagree({"kind": "sequence", "steps": encode_case(steps)}, ans, mine, "registry-sequence")
+
+
+# --------------------------------------------------------------------------- refSwitch: cases x health of each case's function
+
+SWITCH_CASE_VALUES = ["a", "b", "c", "", "a"]
+
+
+def gen_switch_workflow(r):
+    """a schema-valid Workflow with a `refSwitch` step of 1-5 cases: `case` values drawn WITH replacement (the bundled
+    schema as koreo validates it does not make `case` unique: a later entry shadows an earlier one in `logic_map`),
+    each entry's function ready / cached as a failure / not cached at all, independently; none, one or two defaults at
+    any position"""
+    n = r.choice([1, 2, 2, 3, 3, 4, 5])
+    values = [r.choice(SWITCH_CASE_VALUES) for _ in range(n)] if r.random() < 0.7 else [f"c{i}" for i in range(n)]
+    cases = []
+    for v in values:
+        kind, name = r.choice(c14.READY_REFS) if r.random() < 0.55 else r.choice(c14.REFS)
+        cases.append({"case": v, "kind": kind, "name": name})
+    d = r.random()
+    for i in (r.sample(range(n), 1) if d < 0.7 else [] if d < 0.85 else r.sample(range(n), min(2, n))):
+        cases[i]["default"] = True
+    step = {"label": "pick", "refSwitch": {"switchOn": "=" + r.choice(["parent.spec.flavour", "parent.kind", "inputs.k",
+                                                                          "has(parent.x) ? 'a' : 'b'"]),
+                                           "cases": cases}}
+    if r.random() < 0.6:
+        step["inputs"] = {"x": "=parent.spec.x"}
+    steps = [step]
+    if r.random() < 0.3:
+        steps.insert(0, {"label": "before", "ref": {"kind": "ValueFunction", "name": "vf_ok1"}, "inputs": {"a": "=parent.n"}})
+    return {"steps": steps}
+
+
+def switch_shape(spec) -> str:
+    cases = [c for st in spec["steps"] for c in (st.get("refSwitch") or {}).get("cases", [])]
+    seen, shadowed_bad, shadowed = {}, False, False
+    for i, c in enumerate(cases):
+        seen.setdefault(c["case"], []).append(i)
+    for idxs in seen.values():
+        for i in idxs[:-1]:
+            shadowed = True
+            if (cases[i]["kind"], cases[i]["name"]) in c14.NOT_READY:
+                shadowed_bad = True
+    return "shadowed-unready" if shadowed_bad else "shadowed" if shadowed else "distinct"
+
+
+def _switch_fails(spec, via_cache) -> str | None:
+    got = c14.impl_workflow(spec)
+    if "raise" in got:
+        return f"prepare_workflow raised {got['raise']}"
+    if via_cache:
+        bad = expr_case_ok(impl_prepare("Workflow", spec, via_cache=True))
+        if bad:
+            return f"cache.prepare_and_cache of the Workflow {bad}"
+    return None
+
+
+def run_switches(ck: Check, drv: LeanDriver, n: int, r):
+    """C20 on `_load_logic_switch`: whatever the cases are and whatever state each case's function is in, preparing
+    never raises; what it answers (steps, readiness, subscriptions, parent properties) is compared with the model"""
+    setup_world()
+    env_entries = [c14.cache_state(k, nm) for k, nm in c14.REFS]
+    reqs, keep = [], []
+    for i in range(n):
+        spec = gen_switch_workflow(r)
+        via = r.random() < 0.3
+        got = c14.impl_workflow(spec)
+        ck.evaluated()
+        ck.count("switch:" + switch_shape(spec))
+        ck.count("switch-result:" + ("raise" if "raise" in got else "gate" if "gate" in got else got["ready"]))
+        ck.nontriv(hash(json.dumps(spec, sort_keys=True)))
+        bad = _switch_fails(spec, via)
+        if bad:
+            if len(ck.violations) < 40:
+                sw_i = next(j for j, st in enumerate(spec["steps"]) if "refSwitch" in st)
+
+                def rebuilt(cases, sw_i=sw_i):
+                    s2 = jcopy(spec)
+                    s2["steps"] = [s2["steps"][sw_i]]
+                    s2["steps"][0]["refSwitch"]["cases"] = cases
+                    return s2
+
+                small = common.ddmin(spec["steps"][sw_i]["refSwitch"]["cases"],
+                                     lambda sub: bool(sub) and _switch_fails(rebuilt(sub), via) is not None)
+                cand = rebuilt(small)
+                bad2 = _switch_fails(cand, via)
+                if bad2:
+                    spec, bad = cand, bad2
+            if len(ck.violations) < 200:
+                ck.violate({"kind": "prepare", "resource": "Workflow", "spec": encode_case(spec), "via_cache": via},
+                           f"{bad}; refSwitch cases: " + json.dumps(
+                               [[c["case"], c["name"], bool(c.get("default"))] for st in spec["steps"]
+                                for c in (st.get("refSwitch") or {}).get("cases", [])]))
+        if "gate" in got:
+            continue
+        try:
+            reqs.append(c14.workflow_request(spec, env_entries))
+        except Exception as e:  # noqa: BLE001
+            if "raise" not in got:
+                raise
+            continue
+        keep.append((spec, got))
+    answers = c14.ask(ck, drv, reqs, chunk=500)
+    for (spec, got), ans in zip(keep, answers):
+        if ans is None:
+            continue
+        if "raise" in ans or "raise" in got:
+            if ("raise" in ans) != ("raise" in got):
+                ck.disagree({"kind": "prepare", "resource": "Workflow", "spec": spec},
+                            ans if "raise" in ans else "prepared", got, "switch-raises")
+            continue
+        model = c14.canon_model_wf(ans)
+        mine = {k: got[k] for k in ("steps", "ready", "watched", "pp")}
+        if model != mine:
+            ck.disagree({"kind": "prepare", "resource": "Workflow", "spec": spec}, model, mine, "refSwitch-observables")
 
 
 # --------------------------------------------------------------------------- members the schema leaves open
@@ -1422,6 +1544,7 @@ def run(tier: str) -> int:
     ck.notes.append(f"spec stream: {time.time() - t0:.1f}s")
     t0 = time.time()
     run_sequences(ck, drv, 800 if quick else 12000, r)
+    run_switches(ck, drv, 400 if quick else 8000, r)
     run_overlay_inputs(ck, drv, 150 if quick else 3000, r)
     c14.report_setup_failures(ck, "C20")
     ck.notes.append(f"sequence stream: {time.time() - t0:.1f}s")
